@@ -29,6 +29,7 @@ void harness(void) {
   VP_PRE(REQ__mzd_row_swap(M, in_a, in_b, in_sb));
   VP_SNAPSHOT();
   _mzd_row_swap(M, in_a, in_b, in_sb);
+  VP_CANARY();
   VP_POST(ENS1__mzd_row_swap(M, in_a, in_b, in_sb));
   VP_POST(ENS2__mzd_row_swap(M, in_a, in_b, in_sb));
   VP_POST(ENS3__mzd_row_swap(M, in_a, in_b, in_sb));
@@ -53,6 +54,7 @@ void harness(void) {
   VP_PRE(REQ_mzd_col_swap_in_rows(M, in_a, in_b, in_r0, in_r1));
   VP_SNAPSHOT();
   mzd_col_swap_in_rows(M, in_a, in_b, in_r0, in_r1);
+  VP_CANARY();
   VP_POST(ENS1_mzd_col_swap_in_rows(M, in_a, in_b, in_r0, in_r1));
   VP_POST(ENS2_mzd_col_swap_in_rows(M, in_a, in_b, in_r0, in_r1));
   VP_POST(ENS3_mzd_col_swap_in_rows(M, in_a, in_b, in_r0, in_r1));
@@ -69,6 +71,7 @@ void harness(void) {
   VP_PRE(REQ_mzd_row_add_offset(M, in_dst, in_src, in_c0));
   VP_SNAPSHOT();
   mzd_row_add_offset(M, in_dst, in_src, in_c0);
+  VP_CANARY();
   VP_POST(ENS1_mzd_row_add_offset(M, in_dst, in_src, in_c0));
   VP_POST(ENS2_mzd_row_add_offset(M, in_dst, in_src, in_c0));
 }
@@ -83,6 +86,7 @@ void harness(void) {
   VP_PRE(REQ_mzd_row_clear_offset(M, in_row, in_c0));
   VP_SNAPSHOT();
   mzd_row_clear_offset(M, in_row, in_c0);
+  VP_CANARY();
   VP_POST(ENS1_mzd_row_clear_offset(M, in_row, in_c0));
   VP_POST(ENS2_mzd_row_clear_offset(M, in_row, in_c0));
 }
@@ -98,6 +102,7 @@ void harness(void) {
   VP_PRE(REQ_mzd_write_bit(M, in_row, in_col, in_v));
   VP_SNAPSHOT();
   mzd_write_bit(M, in_row, in_col, in_v);
+  VP_CANARY();
   VP_POST(ENS1_mzd_write_bit(M, in_row, in_col, in_v));
   VP_POST(ENS2_mzd_write_bit(M, in_row, in_col, in_v));
 }
@@ -110,6 +115,7 @@ void harness(void) {
   VP_IN(int, in_col);
   VP_PRE(REQ_mzd_read_bit(M, in_row, in_col));
   BIT r = mzd_read_bit(M, in_row, in_col);
+  VP_CANARY();
   VP_POST(ENS1_mzd_read_bit(M, in_row, in_col, r));
 }
 #endif
@@ -123,6 +129,7 @@ void harness(void) {
   VP_IN(int, in_n);
   VP_PRE(REQ_mzd_read_bits(M, in_x, in_y, in_n));
   word r = mzd_read_bits(M, in_x, in_y, in_n);
+  VP_CANARY();
   VP_POST(ENS1_mzd_read_bits(M, in_x, in_y, in_n, r));
   VP_POST(ENS2_mzd_read_bits(M, in_x, in_y, in_n, r));
 }
@@ -139,6 +146,7 @@ void harness(void) {
   VP_PRE(REQ_mzd_xor_bits(M, in_x, in_y, in_n, in_values));
   VP_SNAPSHOT();
   mzd_xor_bits(M, in_x, in_y, in_n, in_values);
+  VP_CANARY();
   VP_POST(ENS1_mzd_xor_bits(M, in_x, in_y, in_n, in_values));
   VP_POST(ENS2_mzd_xor_bits(M, in_x, in_y, in_n, in_values));
 }
@@ -154,6 +162,7 @@ void harness(void) {
   VP_PRE(REQ_mzd_clear_bits(M, in_x, in_y, in_n));
   VP_SNAPSHOT();
   mzd_clear_bits(M, in_x, in_y, in_n);
+  VP_CANARY();
   VP_POST(ENS1_mzd_clear_bits(M, in_x, in_y, in_n));
   VP_POST(ENS2_mzd_clear_bits(M, in_x, in_y, in_n));
 }
